@@ -201,8 +201,11 @@ def show_stats(stats: RattrStats) -> None:
 
 
 def write_cache_file(cache_file: Path, results: CacheableResults) -> None:
-    cache_file.parent.mkdir(parents=True, exist_ok=True)
-    cache_file.write_text(serialise(results, indent=4))
+    try:
+        cache_file.parent.mkdir(parents=True, exist_ok=True)
+        cache_file.write_text(serialise(results, indent=4))
+    except OSError as exc:
+        error.fatal(f"unable to write the cache file {str(cache_file)!r}: {exc}")
 
 
 def entry_point() -> NoReturn:
